@@ -52,10 +52,13 @@ type Scenario struct {
 	DBs       int
 	RaceOnly  bool // run in the free-running -race pass only
 	Pipeline  bool // connection-level: a client writes its whole program at once
-	Gen       bool // generated pair scenario (pairs.go): reported in aggregate
+	// ExtraConns: connections (with their handlers) beyond one per thread, addressed by "cN:" steps
+	ExtraConns []string
+	Gen        bool // generated pair scenario (pairs.go): reported in aggregate
 }
 
 type opRec struct {
+	Conn   string // connection-level scenarios: the connection the step went over ("" = the thread's)
 	After  *opRec // pipelined on the same connection right after this one (program order)
 	Thread int
 	Call   int64
@@ -995,6 +998,14 @@ func main() {
 			db, shards, cap := 2, 8, maxSched*2
 			if tier == "thorough" && len(sc.Threads) <= 2 {
 				db, shards, cap = 3, 32, 4000000
+			}
+			if len(sc.ExtraConns) > 0 {
+				// a sequential story over many connections (one driver, 2 x connections other threads):
+				// bound 1 in the quick tier, 2 in the thorough tier
+				db, shards, cap = 1, 4, maxSched*2
+				if tier == "thorough" {
+					db, shards, cap = 2, 16, 4000000
+				}
 			}
 			for sh := 0; sh < shards; sh++ {
 				b, _ := json.Marshal(task{Mode: "explore", Scenario: sc.ID, Prop: prop, Bound: db, Max: cap, Shard: sh, Of: shards})
